@@ -158,7 +158,10 @@ func writerWaitsForReader(l ds.List[int], expectWait bool) (waits bool) {
 		waits = true
 	}
 	close(release)
-	<-done
+	select {
+	case <-done:
+	case <-time.After(20 * time.Second): // a PushBack that never returns is reported by the concurrent parts; do not hang here
+	}
 
 	return waits
 }
